@@ -218,6 +218,8 @@ theorem pushNone_small : ∀ (b : B) (b' : B), pushNone b = .ok b' → ViewSmall
     exact pushDefaultKAll_small fs 1 fs' h3
   | .dictionary p idx vals index, b', h => by
     simp only [pushNone, ctx_ok] at h
+    split at h
+    · simp [fail] at h
     obtain ⟨idx', h1, h2⟩ := (bind_ok _ _ _).1 h
     cases h2
     simp only [ViewSmall]
